@@ -189,7 +189,8 @@ static rule "every identifier has an enclosing declaration visible at that point
 
 /-- for every program of the stage-3 source fragment (integers, booleans, operators, `stel`/assignment/shadowing, nested blocks,
     `als`/`anders`, `zolang`, `stop`/`volgende`) the definitional semantics on the RESOLVED tree equals the name-based semantics on the
-    SOURCE tree, for every fuel: same value, same output, same error, out of fuel iff out of fuel, unspecified iff unspecified -/
+    SOURCE tree, for every fuel: same value, same error, out of fuel iff out of fuel, unspecified iff unspecified (the fragment has no
+    `print`, so the output is empty on both sides; a `stop`/`volgende` under a pending operand — K3 — is outside `SB`) -/
 theorem C09_resolver_implements_name_scoping (ast : Block) (hs : Sim.SB false ast) (r : RBlock) (h : resolveProgram ast = .ok r) (F : Nat) :
     NameEval.evalProgram F ast = Spec.evalProgram F r :=
   NameEval.nameEval_eq_spec ast hs r h F
@@ -233,7 +234,8 @@ visible at the literal. -/
 /-- the whole stage-4 source fragment (`SimF.SrcTop`: integers, booleans, operators, globals, blocks, `als`, `zolang`, `stop`/`volgende`,
     named and anonymous function literals at top level, calls, parameters, locals, `antwoord`, recursion): the resolver rejects the
     program — with a reference error, the only error it can give here — exactly when the static name rule does; otherwise the
-    definitional semantics on the resolved tree equals the name-based semantics on the source tree for every fuel -/
+    definitional semantics on the resolved tree equals the name-based semantics on the source tree for every fuel.  Outside `SrcTop`:
+    builtin calls (so no output), function literals as arguments / inside blocks or bodies / `stel f = functie g() ..`, heap values -/
 theorem C09_resolver_implements_name_scoping_with_functions (ast : Block) (hs : SimF.SrcTop ast) :
     (NameEvalFn.declaredFn ast = false ∧ resolveProgram ast = .error .reference) ∨
     (NameEvalFn.declaredFn ast = true ∧ ∃ r, resolveProgram ast = .ok r ∧ ∀ F, NameEvalFn.evalProgram F ast = Spec.evalProgram F r) :=
@@ -246,7 +248,7 @@ theorem C09_callers_locals_are_invisible (f g x : Text) (psg : List Text) (e : E
       (.cons (.expr (.func g psg (.cons (.letS x e) (.cons (.expr (.call (.ident f) .nil)) restg)))) rest)) = false :=
   NameEvalFn.callers_local_undeclared f g x psg e restf restg rest hfx
 
-/-- ... and dynamically: a call that returns leaves the caller's activation (its scopes of names and values) exactly as the
+/-- ... and dynamically, as a property of the SPECIFICATION (it restores the saved activation by construction): a call that returns leaves the caller's activation (its scopes of names and values) exactly as the
     evaluation of the callee expression left it; only top-level variables may have changed -/
 theorem C09_call_keeps_callers_activation (f : Nat) (fe : Expr) (as : Exprs) (st st1 st2 st' : NameEvalFn.FState) (xs : List NameEvalFn.NVal)
     (fv v : NameEvalFn.NVal) (h1 : NameEvalFn.evalEs f as st = .val xs st1) (h2 : NameEvalFn.evalE f fe st1 = .val fv st2)
